@@ -213,7 +213,12 @@ func (b *Builder) addFile(pkgPath importPathString, path string, src []byte, use
 	b.userRequested[pkgPath] = userRequested || b.userRequested[pkgPath]
 
 	b.parsed[pkgPath] = append(b.parsed[pkgPath], parsedFile{path, p})
+	trailing := trailingCommentGroups(b.fset, p)
 	for _, c := range p.Comments {
+		if trailing[c] {
+			// Not a candidate for the comment block above a declaration.
+			continue
+		}
 		position := b.fset.Position(c.End())
 		b.endLineToCommentGroup[fileLine{position.Filename, position.Line}] = c
 	}
@@ -228,6 +233,51 @@ func (b *Builder) addFile(pkgPath importPathString, path string, src []byte, use
 		b.importGraph[pkgPath][importedPath] = struct{}{}
 	}
 	return nil
+}
+
+// trailingCommentGroups returns the comment groups of f which start on a line
+// after some code ("x int // like this").  Such a comment documents what
+// precedes it; it is never the doc comment of the next declaration.
+func trailingCommentGroups(fset *token.FileSet, f *ast.File) map[*ast.CommentGroup]bool {
+	// The last position of any code on each line.
+	codeEnd := map[int]token.Pos{}
+	mark := func(pos token.Pos) {
+		if !pos.IsValid() {
+			return
+		}
+		if line := fset.Position(pos).Line; pos > codeEnd[line] {
+			codeEnd[line] = pos
+		}
+	}
+	ast.Inspect(f, func(n ast.Node) bool {
+		switch x := n.(type) {
+		case nil:
+			return false
+		case *ast.Comment, *ast.CommentGroup:
+			return false
+		case *ast.File:
+			mark(x.Package)
+			return true
+		case *ast.GenDecl:
+			mark(x.Lparen)
+		case *ast.FieldList:
+			mark(x.Opening)
+		case *ast.BlockStmt:
+			mark(x.Lbrace)
+		case *ast.CompositeLit:
+			mark(x.Lbrace)
+		}
+		mark(n.Pos())
+		mark(n.End() - 1)
+		return true
+	})
+	trailing := map[*ast.CommentGroup]bool{}
+	for _, c := range f.Comments {
+		if end, ok := codeEnd[fset.Position(c.Pos()).Line]; ok && end < c.Pos() {
+			trailing[c] = true
+		}
+	}
+	return trailing
 }
 
 // AddDir adds an entire directory, scanning it for go files. 'dir' should have
